@@ -300,6 +300,71 @@ def run(ctx) -> list[Inst]:
                                     if retry else ": the malformed file does not make compile() fail")),
                             file=rel, line=h.lineno, props=props))
             cur = par
+    # (a8) the whole input is consumed: ANTLR matches a start rule against a PREFIX of the token stream.  Unless
+    # every alternative of the start rule ends in EOF, what follows the last construct that parsed is never looked
+    # at - `category C {..} } garbage` compiles to the specification of the prefix.  Accepted: the generated start
+    # rule matches EOF on every alternative, or compile() tests the stream for EOF after the parse and raises.
+    construct8 = '(a) the start rule consumes the whole input (EOF matched, or tested after the parse)'
+    start = None
+    for m_ in prog.modules.values():
+        if m_.generated:
+            for c_ in ast.walk(m_.tree):
+                if isinstance(c_, ast.ClassDef) and c_.name == 'malParser':
+                    for d_ in c_.body:
+                        if isinstance(d_, ast.FunctionDef) and d_.name == 'mal':
+                            start = d_
+    if start is None:
+        insts.append(Inst(RULE, f.short, construct8, 'unproven', msg='generated start rule malParser.mal not found',
+                          file=rel, line=parse_node.lineno, props=props))
+    else:
+        def _matches_eof(stmts):
+            for s_ in stmts:
+                if isinstance(s_, ast.Expr) and isinstance(s_.value, ast.Call) and isinstance(s_.value.func, ast.Attribute) \
+                        and s_.value.func.attr == 'match' and s_.value.args and 'EOF' in stmt_text(s_.value.args[0]):
+                    return True
+            return False
+        alts = []
+        for n in ast.walk(start):
+            if isinstance(n, ast.Try):
+                chain = [x for x in n.body if isinstance(x, ast.If)]
+                if chain:
+                    cur = chain[-1]
+                    while True:
+                        alts.append(cur.body)
+                        if len(cur.orelse) == 1 and isinstance(cur.orelse[0], ast.If):
+                            cur = cur.orelse[0]
+                        else:
+                            break
+                else:
+                    alts.append(n.body)
+                break
+        rule_eof = bool(alts) and all(_matches_eof(a) for a in alts)
+        tested = False
+        for g in cfg.nodes:
+            if g.kind == 'if' and g is not parse_node and cfg.dominates(parse_node, g) and 'EOF' in stmt_text(g.ast.test):
+                lab = None
+                for l_ in ('T', 'F'):
+                    if _always_raises(cfg, g, l_):
+                        lab = l_
+                rets = [x for x in cfg.nodes if x.kind == 'stmt' and isinstance(x.ast, ast.Return)
+                        and cfg.dominates(parse_node, x)]
+                if lab and all(cfg.dominates(g, r) for r in rets):
+                    tested = True
+        if rule_eof:
+            insts.append(Inst(RULE, f.short, construct8, 'ok', msg=f'every one of the {len(alts)} alternatives of mal matches EOF',
+                              file=rel, line=parse_node.lineno, props=props))
+        elif tested:
+            insts.append(Inst(RULE, f.short, construct8, 'ok', msg='compile() tests the token stream for EOF after the parse',
+                              file=rel, line=parse_node.lineno, props=props))
+        else:
+            n_eof = sum(1 for a in alts if _matches_eof(a))
+            insts.append(Inst(
+                RULE, f.short, construct8, 'violation',
+                msg=(f"the start rule malParser.mal matches EOF on {n_eof} of its {len(alts)} alternatives (grammar: "
+                     f"'mal: declaration+ | EOF') and compile() never looks at what is left in the token stream: after "
+                     f"the last declaration that parses, ANTLR simply stops - trailing text that is not MAL ('}} }} junk', "
+                     f"an 'asset' outside any category) is ignored and the file compiles to the specification of its prefix"),
+                file=rel, line=parse_node.lineno, props=props))
     # (a3) compile() is re-entered for every include (through the visitor): per-compilation error state
     # must not be reset inside it while an outer invocation still has to test it
     resets = []
